@@ -79,6 +79,11 @@ extern "C" int harness()
     Abs a1, a2;
     (void)a1; (void)a2;
 #if MODE == 1
+#ifdef KF_TTL0 /* known-finding case split (ut_map/ut_set with a configured TTL of exactly 0): entries are born expired, so the
+                  singles purge between two elements of the range while the range form purges once */
+    if (T_PURGE)
+        __vf_assume(KF_TTL0 ? pre.ttl == 0 : pre.ttl > 0);
+#endif
     Ev e[RMAX];
     for (int i = 0; i < RMAX; ++i)
     {
